@@ -158,7 +158,12 @@ func funcSubStrVec(chunk []KVPair, args []Expression, ctx *ExecuteCtx) ([]any, e
 			values[i] = ""
 		} else {
 			length = min(length, vlen-start)
-			values[i] = val[start:length]
+			if start < 0 || length < start {
+				// nothing lies between these positions
+				values[i] = ""
+			} else {
+				values[i] = val[start:length]
+			}
 		}
 	}
 	return values, nil
